@@ -1,4 +1,5 @@
-"""C03 — competition and rollup: real mokapot.assign_confidence result files against Model/Confidence.v."""
+"""C03 — competition and rollup: real mokapot.assign_confidence result files against Model/Confidence.v, and the
+files written by the stand-alone tool mokapot.brew_rollup.main against Model/Rollup.v."""
 import os
 import shutil
 import tempfile
@@ -16,11 +17,23 @@ RULE = ("generated PSM tables (5-200 rows, spectra with 1-5 PSMs, peptides share
         "decoy output on/off, confidence / merge-sort chunk sizes 1..n+1; result files parsed and compared row by row "
         "(PSM id, q-value, order, target/decoy file) with the extracted model. Default stream: pairwise distinct scores; "
         "tie stream: only (entity, score) sets are compared. distinct = distinct case; non-trivial = some spectrum has "
-        ">= 2 PSMs and some peptide is shared by >= 2 spectra")
+        ">= 2 PSMs and some peptide is shared by >= 2 spectra. "
+        "Rollup tool: generated source directories (1-4 collections of <name>.targets.<base>s / <name>.decoys.<base>s, base "
+        "level psm / precursor / peptide / modifiedpeptide / peptidegroup, text or Parquet, level columns present or absent "
+        "under their standard or alias names, a decoys or targets file missing, a stale result file of an earlier run, a "
+        "collection whose name starts like the output root) written directly in the result-file layout, or produced by the "
+        "real assign_confidence (prefixes a, b, c; do_rollup=True); brew_rollup.main is run on them and every "
+        "<root>.targets.<level>s / <root>.decoys.<level>s is compared row by row (PSM id, order, q-value, file) with the "
+        "extracted model; tie stream: (entity, score) sets per level; malformed stream: unsorted file, empty file, no file, "
+        "both formats, differing schemas, no score column (error kinds compared). compute_rollup_levels is compared with "
+        "the model on every base level with the default table and random tables. non-trivial (rollup) = some entity has rows "
+        "in two different files")
 ASSUMPTIONS = [
     "PEP estimation is replaced by a constant during these runs (oracle of C06); q-values are the TDC q-values",
     "pandas sort_values and the glob order of chunk files only matter among tied scores (excluded from the default stream)",
     "spectrum / level keys enter the model as integer ids of the distinct value tuples",
+    "rollup tool: the schema (column names and dtypes) each reader reports for a source file is recorded with pandas / pyarrow "
+    "and enters the model as an id (equal ids = equal schemas); Path.glob + sorted = the file names in string order",
 ]
 TRUSTED_EXTRA = ["pandas / pyarrow readers and writers of the intermediate and result files (oracle)"]
 
@@ -68,6 +81,8 @@ def gen(ctx):
                       "tags": ["conf", f"coll={ncoll}", "dedup" if dedup else "nodedup", "rollup" if rollup else "norollup",
                                "ties" if ties else "distinct", "levels=%d" % len(levels),
                                "chunk=" + str(chunks.get("confidence", "default"))]})
+    # the stand-alone rollup tool; appended AFTER the assign_confidence cases (C07 re-uses the first cases of this list)
+    cases.extend(gen_rollup(ctx))
     return cases
 
 
@@ -174,6 +189,8 @@ def _model(c):
 
 
 def run_case(c):
+    if c["fn"] in RU_FNS:
+        return ru_run_case(c)
     got = call_impl(_run_impl, c)
     model = ("ok", {k: [(i, q) for i, q in v] for k, v in _model(c).items()})
     if got[0] == "err":
@@ -220,6 +237,8 @@ def _entity(c, fn, pid):
 
 
 def same(c, m, i):
+    if c["fn"] in RU_FNS:
+        return ru_same(c, m, i)
     if m[0] != i[0]:
         return False
     if i[0] == "err":
@@ -232,6 +251,8 @@ def same(c, m, i):
 
 
 def nontrivial(c):
+    if c["fn"] in RU_FNS:
+        return ru_nontrivial(c)
     for f in c["files"]:
         cols = [x for x in ("filename", "ScanNr", "ret_time", "ExpMass") if x in f["data"]]
         n = len(f["targets"])
@@ -247,6 +268,8 @@ def nontrivial(c):
 
 # ----------------------------------------------------------------------------- the property itself
 def oracle(c, i):
+    if c["fn"] in RU_FNS:
+        return ru_oracle(c, i)
     if i[0] != "ok":
         return f"assign_confidence failed: {i[1]}"
     raw = i[1]["raw"]
@@ -319,3 +342,577 @@ def oracle(c, i):
 
 def finding_key(c, m, i):
     return None
+
+
+# ============================================================================= the stand-alone rollup tool
+RU_FNS = ("rollup", "rollup_ac", "rollup_levels")
+RU_BASES = ["psm", "precursor", "peptide", "modifiedpeptide", "peptidegroup"]
+# vocabulary of the property, used by generators and by the oracle only (the model has its own tables,
+# Model/Rollup.v ru_default_parents / ru_column_map, compared with mokapot's in extra_checks)
+RU_PARENT = {"precursor": "psm", "modified_peptide": "precursor", "peptide": "modified_peptide", "peptide_group": "precursor"}
+RU_ALIASES = {"psm_id": ["PSMId", "SpecId", "psm_id"], "peptide": ["peptide", "Peptide"],
+              "precursor": ["Precursor", "pcm", "PCM", "precursor"],
+              "modified_peptide": ["ModifiedPeptide", "modifiedpeptide", "modified_peptide"],
+              "peptide_group": ["PeptideGroup", "peptidegroup", "peptide_group"], "q_value": ["q-value", "q_value"]}
+RU_STD = {a: k for k, v in RU_ALIASES.items() for a in v}
+RU_TAIL = ["score", "q-value", "posterior_error_prob", "proteinIds"]
+
+
+def _ru_rows(rng, n, columns, ties, id0=0, npep=None):
+    npep = npep or rng.choice([2, max(2, n // 4), n])
+    # an unmodified peptide, its modified form and its group often are the same string: the levels must not share state
+    shared = rng.random() < 0.35
+    if ties:
+        scores = [rng.randint(0, max(2, n // 3)) * 0.5 for _ in range(n)]
+    else:
+        scores = [v * 0.5 for v in rng.sample(range(-n, 3 * n + 2), n)]
+    rows = []
+    for k in range(n):
+        r = []
+        for col in columns:
+            std = RU_STD.get(col, col)
+            if std == "psm_id":
+                r.append("p%d" % (id0 + k))
+            elif std == "peptide":
+                r.append("PEP%d" % rng.randint(0, npep))
+            elif std in ("precursor", "modified_peptide", "peptide_group"):
+                r.append("%s%d" % ("PEP" if shared else std[:2], rng.randint(0, max(1, npep // 2))))
+            elif std == "score":
+                r.append(scores[k])
+            elif std in ("q_value", "posterior_error_prob"):
+                r.append(rng.randint(0, 8) / 8.0)
+            else:
+                r.append("prot%d" % rng.randint(0, 5))
+        rows.append(r)
+    return rows
+
+
+def _ru_sorted(rows, si):
+    return sorted(rows, key=lambda r: -r[si])
+
+
+RU_MALFORMED = ["unsorted", "empty", "unsorted", "only_empty", "unsorted", "nofiles", "unsorted", "both", "empty", "schema",
+                "unsorted", "noscore"]
+
+
+def _ru_gen_direct(rng, stream, big=False, malform=None):
+    base = rng.choice(["psm"] * 5 + ["precursor"] * 2 + ["peptide"] * 2 + ["modifiedpeptide", "peptidegroup"])
+    fmt = rng.choice(["tsv", "tsv", "parquet"])
+    root = rng.choice(["rollup", "rollup", "rollup", "r", "out.x"])
+    columns = [rng.choice(RU_ALIASES["psm_id"][:2] * 2 + ["psm_id"])]
+    if rng.random() < 0.9:
+        columns.append(rng.choice(["peptide", "peptide", "Peptide"]))
+    lv = [rng.choice(RU_ALIASES[k]) for k in ("precursor", "modified_peptide", "peptide_group") if rng.random() < 0.55]
+    rng.shuffle(lv)
+    columns += lv + RU_TAIL
+    si = columns.index("score")
+    ncoll = rng.choice([1, 2, 2, 3, 4])
+    names = rng.sample(["a", "b", "c", "d", "run1", "x.y"], ncoll)
+    variant = []
+    if rng.random() < 0.1:
+        names[0] = root + "x"              # starts like the output root but is not a result file of an earlier run
+        variant.append("rootlike")
+    slots = [(nm, kind) for nm in names for kind in ("targets", "decoys")]
+    if len(slots) > 1 and rng.random() < 0.15:
+        slots.remove(rng.choice([s for s in slots if s[1] == "decoys"]))
+        variant.append("nodecoys")
+    if len(slots) > 1 and rng.random() < 0.07:
+        slots.remove(rng.choice([s for s in slots if s[1] == "targets"]))
+        variant.append("notargets")
+    n = rng.randint(len(slots), 60) if not big else rng.randint(1100, 1500)
+    if rng.random() < 0.15 and not big:
+        n = rng.randint(len(slots), len(slots) + 3)
+    ties = stream == "ties"
+    rows = _ru_rows(rng, n, columns, ties)
+    per = {s: [] for s in slots}
+    order = list(range(n))
+    rng.shuffle(order)
+    for j, k in enumerate(order):
+        s = slots[j] if j < len(slots) else rng.choice(slots)
+        per[s].append(rows[k])
+    files = [{"name": "%s.%s.%ss" % (nm, kind, base), "rows": _ru_sorted(per[(nm, kind)], si)} for nm, kind in slots]
+    if rng.random() < 0.2:
+        # result files of an earlier run in the source directory: must be ignored
+        hi = max(r[si] for r in rows) + 1.0
+        for kind in rng.choice([["targets"], ["decoys"], ["targets", "decoys"]]):
+            st = [list(rng.choice(rows)) for _ in range(rng.randint(1, 2))]
+            for j, r in enumerate(st):
+                r[0] = "stale%d%s" % (j, kind[0])
+                r[si] = hi + (1 - j) + (0.25 if kind == "decoys" else 0.0)
+            files.append({"name": "%s.%s.%ss" % (root, kind, base), "rows": _ru_sorted(st, si)})
+        variant.append("stale")
+    c = {"fn": "rollup", "base": base, "fmt": fmt, "root": root, "columns": columns, "files": files, "stream": stream,
+         "ties": ties, "variant": variant}
+    if stream == "malformed":
+        _ru_malform(rng, c, si, malform)
+    c["tags"] = ["rollup_tool", "ru-" + stream, "ru-base=" + base, "ru-" + fmt, "ru-coll=%d" % ncoll,
+                 "ru-levelcols=%d" % len(lv)] + ["ru-" + v for v in c["variant"]]
+    return c
+
+
+def _ru_malform(rng, c, si, kind):
+    files = [f for f in c["files"] if not f["name"].startswith(c["root"] + ".")]
+    kind = kind or rng.choice(RU_MALFORMED)
+    if kind == "schema" and len(files) < 2:
+        kind = "unsorted"
+    if kind == "unsorted":
+        cand = [f for f in files if len({r[si] for r in f["rows"]}) >= 2]
+        if not cand:
+            kind = "empty"
+        else:
+            f = rng.choice(cand)
+            rows = f["rows"]
+            while all(a[si] >= b[si] for a, b in zip(rows, rows[1:])):
+                i, j = rng.sample(range(len(rows)), 2)
+                rows[i], rows[j] = rows[j], rows[i]
+    if kind == "empty":
+        rng.choice(files)["rows"] = []
+    elif kind == "only_empty":
+        f = rng.choice(files)
+        f["rows"] = []
+        c["files"] = [f]
+    elif kind == "nofiles":
+        if rng.random() < 0.5:
+            c["files"] = []
+        else:
+            for f in c["files"]:
+                f["name"] = f["name"][:-1] + "x"          # *.targets.psmx: matched by no pattern
+    elif kind == "both":
+        f = dict(rng.choice(files))
+        f["fmt"] = "parquet" if c["fmt"] == "tsv" else "tsv"
+        c["files"].append(f)
+    elif kind == "schema":
+        f = rng.choice(files)
+        drop = rng.choice([k for k, col in enumerate(c["columns"]) if col != "score" and k != 0])
+        f["columns"] = [col for k, col in enumerate(c["columns"]) if k != drop]
+        f["rows"] = [[v for k, v in enumerate(r) if k != drop] for r in f["rows"]]
+    elif kind == "noscore":
+        for f in c["files"]:
+            f["rows"] = [[v for k, v in enumerate(r) if k != si] for r in f["rows"]]
+        c["columns"] = [col for col in c["columns"] if col != "score"]
+    c["variant"].append(kind)
+
+
+def _ru_gen_ac(rng):
+    ncoll = rng.choice([1, 2, 2, 3])
+    levels = [l for l in LEVEL_COLS if rng.random() < 0.5]
+    files, scores = [], []
+    nkey = rng.choice([1, 2, 4])
+    for j in range(ncoll):
+        n = rng.randint(15, 60)
+        files.append(brewlib.gen_file(rng, n, nkey, file_idx=j, mult=(1, rng.choice([1, 3])), levels=levels,
+                                      npep=rng.choice([3, max(2, n // 4)]), label_enc="pm1"))
+        scores.append([float(v) for v in rng.sample(range(-n, 3 * n), n)])
+    # distinct scores over ALL collections (the merged stream of the rollup tool pools them)
+    seen = set()
+    for sc in scores:
+        for k, v in enumerate(sc):
+            while v in seen:
+                v += 0.25
+            seen.add(v)
+            sc[k] = v
+    bases = ["psm", "psm", "peptide"] + (["precursor", "precursor"] if "Precursor" in levels else [])
+    base = rng.choice(bases)
+    return {"fn": "rollup_ac", "files": files, "scores": scores, "levels": levels, "dedup": rng.random() < 0.6,
+            "decoys": rng.random() < 0.85, "pin_fmt": rng.choice(["tsv", "parquet"]), "base": base, "root": "rollup",
+            "stream": "default", "ties": False, "variant": [],
+            "tags": ["rollup_ac", "ru-base=" + base, "ru-coll=%d" % ncoll, "ru-levelcols=%d" % len(levels)]}
+
+
+def _ru_gen_levels(rng, thorough):
+    cases = []
+    names = ["psm", "precursor", "modified_peptide", "peptide", "peptide_group", "a", "b", "c", "d", "e"]
+    for base in RU_BASES + ["modified_peptide", "peptide_group", "protein", ""]:
+        cases.append({"fn": "rollup_levels", "parents": None, "base": base, "tags": ["rollup_levels", "ru-default-table"]})
+    for k in range(300 if thorough else 120):
+        pool = names if rng.random() < 0.5 else names[5:]
+        m = rng.randint(0, 8)
+        if k % 4 == 0 and m >= 2:
+            # a chain listed child-before-parent: one level per sweep
+            chain = rng.sample(pool, min(len(pool), m + 1))
+            parents = [[chain[i + 1], chain[i]] for i in range(len(chain) - 1)][::-1]
+            base = chain[0] if rng.random() < 0.8 else rng.choice(pool)
+        else:
+            children = rng.sample(pool, min(m, len(pool)))
+            parents = [[ch, rng.choice(pool)] for ch in children]       # cycles and self-parents included
+            base = rng.choice(pool)
+        cases.append({"fn": "rollup_levels", "parents": parents, "base": base,
+                      "tags": ["rollup_levels", "ru-random-table", "ru-table=%d" % len(parents)]})
+    return cases
+
+
+def gen_rollup(ctx):
+    cases = []
+    rng = ctx.sub("rollup")
+    for k in range(260 if ctx.thorough else 90):
+        cases.append(_ru_gen_direct(rng, "default"))
+    for k in range(80 if ctx.thorough else 30):
+        cases.append(_ru_gen_direct(rng, "ties"))
+    for k in range(140 if ctx.thorough else 50):
+        cases.append(_ru_gen_direct(rng, "malformed", malform=RU_MALFORMED[k % len(RU_MALFORMED)]))
+    if ctx.thorough:
+        for k in range(2):     # longer than the 1000-row write buffers of the tool
+            cases.append(_ru_gen_direct(rng, "default", big=True))
+    rng = ctx.sub("rollup_ac")
+    for k in range(60 if ctx.thorough else 18):
+        cases.append(_ru_gen_ac(rng))
+    cases.extend(_ru_gen_levels(ctx.sub("rollup_levels"), ctx.thorough))
+    return cases
+
+
+# ----------------------------------------------------------------------------- running the real tool
+def _ru_write_file(path, columns, rows, fmt):
+    import pandas as pd
+    if rows:
+        df = pd.DataFrame(rows, columns=columns)
+    else:
+        # same column types as a file with rows (what a typed writer produces)
+        dummy = [0.5 if RU_STD.get(col, col) in ("score", "q_value", "posterior_error_prob") else "x" for col in columns]
+        df = pd.DataFrame([dummy], columns=columns).iloc[0:0]
+    if fmt == "parquet":
+        df.to_parquet(path, index=False)
+    else:
+        df.to_csv(path, sep="\t", index=False)
+
+
+def _ru_read_file(path):
+    """columns and cells of a result file (strings and floats)"""
+    import pandas as pd
+    if str(path).endswith(".parquet"):
+        df = pd.read_parquet(path)
+    else:
+        df = pd.read_csv(path, sep="\t", float_precision="round_trip", index_col=False)
+    cols = [str(x) for x in df.columns]
+    rows = []
+    for rec in df.itertuples(index=False, name=None):
+        rows.append([float(v) if isinstance(v, (int, float)) and not isinstance(v, bool) else str(v) for v in rec])
+    return cols, rows
+
+
+def _ru_schema(path):
+    """what the tool's readers report as column names / column types of the file (oracle: pandas / pyarrow)"""
+    if str(path).endswith(".parquet"):
+        import pyarrow.parquet as pq
+        sch = pq.ParquetFile(path).schema.to_arrow_schema()
+        return repr([(n, str(t)) for n, t in zip(sch.names, sch.types)])
+    import pandas as pd
+    df = pd.read_csv(path, sep="\t", index_col=False, nrows=2)
+    return repr([(str(n), str(t)) for n, t in df.dtypes.items()])
+
+
+def _ru_make_src(c, src):
+    """write / produce the source directory; returns its description {name: {columns, rows, schema}}"""
+    import numpy as np
+    desc = {}
+    if c["fn"] == "rollup":
+        for f in c["files"]:
+            fmt = f.get("fmt", c["fmt"])
+            name = f["name"] + (".parquet" if fmt == "parquet" else "")
+            cols = f.get("columns", c["columns"])
+            _ru_write_file(src / name, cols, f["rows"], fmt)
+            desc[name] = {"columns": cols, "rows": f["rows"]}
+    else:
+        import mokapot
+        import mokapot.confidence as conf
+        pins = src.parent / "pins"
+        pins.mkdir()
+        old = conf.peps_from_scores
+        conf.peps_from_scores = _const_peps
+        try:
+            paths = [brewlib.write_file(f, pins, "coll%d" % i, c["pin_fmt"]) for i, f in enumerate(c["files"])]
+            dss = mokapot.read_pin(paths, max_workers=1)
+            mokapot.assign_confidence(dss, max_workers=1, scores=[np.array(s, dtype=float) for s in c["scores"]],
+                                      eval_fdr=0.5, dest_dir=src, prefixes=["abc"[i] for i in range(len(paths))],
+                                      decoys=c["decoys"], deduplication=c["dedup"], do_rollup=True)
+        finally:
+            conf.peps_from_scores = old
+        for name in sorted(os.listdir(src)):
+            cols, rows = _ru_read_file(src / name)
+            desc[name] = {"columns": cols, "rows": rows}
+    for name in desc:
+        desc[name]["schema"] = _ru_schema(src / name)
+    return desc
+
+
+def _ru_listing(desc, base):
+    """the file selection of do_rollup up to the root filter (which is the model's): names in sorted order"""
+    import fnmatch
+    names = sorted(desc)
+    has_parquet = any(fnmatch.fnmatchcase(n, "*.%ss.parquet" % base) for n in names)
+    has_text = any(fnmatch.fnmatchcase(n, "*.%ss" % base) for n in names)
+    suffix = ".parquet" if has_parquet else ""
+    tf = [n for n in names if fnmatch.fnmatchcase(n, "*.targets.%ss%s" % (base, suffix))]
+    df = [n for n in names if fnmatch.fnmatchcase(n, "*.decoys.%ss%s" % (base, suffix))]
+    return has_parquet, has_text, suffix, tf, df
+
+
+def _ru_impl(c):
+    import mokapot.brew_rollup as br
+    d = Path(tempfile.mkdtemp(prefix="c03ru_", dir=os.environ.get("VERIF_TMP", "/tmp")))
+    old = br.peps_from_scores
+    br.peps_from_scores = _const_peps
+    try:
+        src, dest = d / "src", d / "dest"
+        src.mkdir()
+        dest.mkdir()
+        desc = _ru_make_src(c, src)
+
+        def run():
+            br.main(["--level", c["base"], "--src_dir", str(src), "--dest_dir", str(dest), "--file_root", c["root"],
+                     "--verbosity", "0"])
+            raw = {}
+            for name in sorted(os.listdir(dest)):
+                if ".temp." in name:
+                    continue
+                cols, rows = _ru_read_file(dest / name)
+                raw[name] = {"columns": cols, "rows": rows}
+            return raw
+        return desc, call_impl(run)
+    finally:
+        br.peps_from_scores = old
+        shutil.rmtree(d, ignore_errors=True)
+
+
+# ----------------------------------------------------------------------------- model
+_RU_CONSTS = []
+
+
+def _ru_model_consts():
+    if not _RU_CONSTS:
+        t = Toks(lib.run_driver(["c03.rollup_consts"])[0])
+        _RU_CONSTS.append((t.lst(lambda: (t.s(), t.s())), t.lst(lambda: (t.s(), t.s()))))
+    return _RU_CONSTS[0]
+
+
+def _ru_model(c, desc):
+    """-> ('ok', [(level, [(row, q)], [(row, q)])]) | ('err', kind); rows = (file name, row index)"""
+    from .c01 import exact_ints
+    has_parquet, has_text, suffix, tf, df = _ru_listing(desc, c["base"])
+    order = tf + df
+    allsc, where = [], []
+    for name in order:
+        cols = desc[name]["columns"]
+        si = cols.index("score") if "score" in cols else None
+        for k, r in enumerate(desc[name]["rows"]):
+            allsc.append(r[si] if si is not None else 0.0)
+            where.append((name, k))
+    exact = exact_ints(allsc) if allsc else []
+    vid, sid = {}, {}
+    gid = 0
+    enc = {}
+    for name in order:
+        cols = desc[name]["columns"]
+        rows = []
+        for r in desc[name]["rows"]:
+            keys = [vid.setdefault((col, v), len(vid) + 1) for col, v in zip(cols, r)]
+            rows.append("%s %s %s %s %s" % (lib.z(gid), lib.z(0), lib.lst(keys), lib.b(False), lib.z(exact[gid])))
+            gid += 1
+        schema = sid.setdefault(desc[name]["schema"], len(sid) + 1)
+        enc[name] = "%s %s %d %s" % (lib.s(name), lib.z(schema), len(rows), " ".join(rows))
+    raw_cols = desc[order[0]]["columns"] if order else []
+    line = "c03.rollup %s %s %s %s %s %s %s" % (
+        lib.b(has_parquet), lib.b(has_text), lib.s(c["root"]), lib.s(c["base"]), lib.lst(raw_cols, lib.s),
+        " ".join([str(len(tf))] + [enc[n] for n in tf]), " ".join([str(len(df))] + [enc[n] for n in df]))
+    t = Toks(lib.run_driver([line])[0])
+    res = t.result(lambda: t.lst(lambda: (t.s(), t.lst(lambda: (t.z(), t.q())), t.lst(lambda: (t.z(), t.q())))))
+    if res[0] == "err":
+        return res, suffix
+    return ("ok", [(lv, [(where[g], q) for g, q in tg], [(where[g], q) for g, q in dc]) for lv, tg, dc in res[1]]), suffix
+
+
+def _ru_cell(desc, w, std):
+    """the cell of input row w = (file, index) in the column whose standard name is std"""
+    cols = desc[w[0]]["columns"]
+    for k, col in enumerate(cols):
+        if RU_STD.get(col, col) == std:
+            return desc[w[0]]["rows"][w[1]][k]
+    return None
+
+
+def _ru_levels_impl(c):
+    import mokapot.brew_rollup as br
+    if c["parents"] is None:
+        return br.compute_rollup_levels(c["base"])
+    return br.compute_rollup_levels(c["base"], {ch: p for ch, p in c["parents"]})
+
+
+def ru_run_case(c):
+    if c["fn"] == "rollup_levels":
+        parents = c["parents"] if c["parents"] is not None else _ru_model_consts()[0]
+        line = "c03.rollup_levels %s %s" % (lib.lst(parents, lambda cp: lib.s(cp[0]) + " " + lib.s(cp[1])), lib.s(c["base"]))
+        t = Toks(lib.run_driver([line])[0])
+        return t.result(lambda: t.lst(t.s)), call_impl(_ru_levels_impl, c)
+    desc, got = _ru_impl(c)
+    m, suffix = _ru_model(c, desc)
+    if got[0] == "err":
+        return m, got
+    if m[0] == "err":
+        return m, ("ok", {"raw": got[1], "desc": desc})
+    raw = got[1]
+    root = c["root"]
+    if c["ties"]:
+        # any tied winner is accepted (a tied target / decoy pair may even swap files): per level the
+        # (entity, score) pairs of the target and decoy file together
+        cm, ci = {}, {}
+        for lv, tg, dc in m[1]:
+            cm[lv] = sorted((str(_ru_cell(desc, w, lv)), float(_ru_cell(desc, w, "score"))) for w, _ in tg + dc)
+        for name, f in raw.items():
+            lv = name[len(root) + 1:].split(".", 1)[1]
+            lv = lv[:-len(suffix)] if suffix else lv
+            lv = lv[:-1]
+            for r in f["rows"]:
+                rec = dict(zip(f["columns"], r))
+                ci.setdefault(lv, []).append((str(rec.get(lv)), float(rec.get("score"))))
+        ci = {k: sorted(v) for k, v in ci.items()}
+        names_m = sorted("%s.%s.%ss%s" % (root, kind, lv, suffix) for lv, _, _ in m[1] for kind in ("targets", "decoys"))
+        return (("ok", {"tie-canonical": cm, "names": names_m}),
+                ("ok", {"tie-canonical": ci, "names": sorted(raw), "raw": raw, "desc": desc}))
+    files_m = {}
+    for lv, tg, dc in m[1]:
+        for kind, rows in (("targets", tg), ("decoys", dc)):
+            files_m["%s.%s.%ss%s" % (root, kind, lv, suffix)] = [(str(_ru_cell(desc, w, "psm_id")), Fraction(float(q))) for w, q in rows]
+    files_i = {}
+    for name, f in raw.items():
+        recs = [dict(zip(f["columns"], r)) for r in f["rows"]]
+        files_i[name] = [(str(rec.get("psm_id")), Fraction(rec["q_value"]) if "q_value" in rec else None) for rec in recs]
+    return ("ok", {"files": files_m}), ("ok", {"files": files_i, "raw": raw, "desc": desc})
+
+
+def ru_same(c, m, i):
+    if c["fn"] == "rollup_levels":
+        return lib.jsonable(m) == lib.jsonable(i)
+    if m[0] != i[0]:
+        return False
+    if m[0] == "err":
+        return m[1] == i[1]
+    if c["ties"]:
+        return lib.jsonable(m[1]["tie-canonical"]) == lib.jsonable(i[1]["tie-canonical"]) and m[1]["names"] == i[1]["names"]
+    return lib.jsonable(m[1]["files"]) == lib.jsonable(i[1]["files"])
+
+
+def ru_nontrivial(c):
+    if c["fn"] == "rollup_levels":
+        return c["parents"] is not None and len(c["parents"]) >= 2
+    if c["fn"] == "rollup_ac":
+        return len(c["files"]) >= 2
+    # some entity of some level column has rows in two different files
+    for k, col in enumerate(c["columns"]):
+        if RU_STD.get(col, col) in ("peptide", "precursor", "modified_peptide", "peptide_group"):
+            owner = {}
+            for f in c["files"]:
+                if "columns" in f:
+                    continue
+                for r in f["rows"]:
+                    if owner.setdefault(r[k], f["name"]) != f["name"]:
+                        return True
+    return False
+
+
+# ----------------------------------------------------------------------------- the property itself (rollup tool)
+def _ru_descendants(base, parent):
+    out = [base]
+    changed = True
+    while changed:
+        changed = False
+        for ch, p in parent.items():
+            if p in out and ch not in out:
+                out.append(ch)
+                changed = True
+    return out
+
+
+def ru_oracle(c, i):
+    if c["fn"] == "rollup_levels":
+        if i[0] != "ok":
+            return f"compute_rollup_levels failed: {i[1]}"
+        lv = list(i[1])
+        parent = RU_PARENT if c["parents"] is None else {ch: p for ch, p in c["parents"]}
+        want = _ru_descendants(c["base"], parent)
+        if not lv or lv[0] != c["base"]:
+            return "the result does not start with the base level"
+        if len(set(lv)) != len(lv):
+            return "a level is listed twice"
+        if set(lv) != set(want):
+            return f"levels {lv} are not the descendants {sorted(want)} of the base level"
+        return None
+    if i[0] != "ok":
+        if c["fn"] == "rollup" and c["stream"] in ("default", "ties"):
+            return f"brew_rollup failed ({i[1]}) on sorted, non-empty result files with equal columns"
+        return None
+    desc, raw = i[1]["desc"], i[1]["raw"]
+    base, root = c["base"], c["root"]
+    has_parquet, has_text, suffix, tf, df = _ru_listing(desc, base)
+    sel = [(n, True) for n in tf if not n.startswith(root + ".")] + [(n, False) for n in df if not n.startswith(root + ".")]
+    pool = []
+    for name, is_t in sel:
+        cols = desc[name]["columns"]
+        if "score" not in cols:
+            return None
+        si = cols.index("score")
+        sc = [r[si] for r in desc[name]["rows"]]
+        if any(a < b for a, b in zip(sc, sc[1:])):
+            return f"{name} is not in descending score order but the tool produced result files"
+        for k in range(len(sc)):
+            pool.append(((name, k), is_t))
+    if not sel or any(not desc[n]["rows"] for n, _ in sel) or len({desc[n]["schema"] for n, _ in sel}) > 1:
+        return None
+    std_cols = [RU_STD.get(col, col) for col in desc[sel[0][0]]["columns"]]
+    levels = [lv for lv in _ru_descendants(base, RU_PARENT) if lv in std_cols]
+    want_names = sorted("%s.%s.%ss%s" % (root, kind, lv, suffix) for lv in levels for kind in ("targets", "decoys"))
+    if sorted(raw) != want_names:
+        return f"result files {sorted(raw)}; expected {want_names}"
+    from .c01 import exact_ints
+    by_id = {str(_ru_cell(desc, w, "psm_id")): (w, is_t) for w, is_t in pool}
+    for lv in levels:
+        got = []
+        for kind in ("targets", "decoys"):
+            f = raw["%s.%s.%ss%s" % (root, kind, lv, suffix)]
+            recs = [dict(zip(f["columns"], r)) for r in f["rows"]]
+            sc = [rec["score"] for rec in recs]
+            if any(a < b for a, b in zip(sc, sc[1:])):
+                return f"{kind}.{lv}s: rows are not ranked best first"
+            for rec in recs:
+                hit = by_id.get(str(rec.get("psm_id")))
+                if hit is None:
+                    return f"{kind}.{lv}s: row {rec.get('psm_id')} is not a row of a selected input file"
+                w, is_t = hit
+                if is_t != (kind == "targets"):
+                    return f"{kind}.{lv}s: row {rec.get('psm_id')} comes from a {'targets' if is_t else 'decoys'} file"
+                for col, v in zip(desc[w[0]]["columns"], desc[w[0]]["rows"][w[1]]):
+                    std = RU_STD.get(col, col)
+                    if std in ("q_value", "posterior_error_prob"):
+                        continue
+                    if rec.get(std) != v:
+                        return f"{kind}.{lv}s: row {rec.get('psm_id')} column {std} is {rec.get(std)!r}, input has {v!r}"
+                got.append((w, is_t, rec))
+        ids = [w for w, _, _ in got]
+        if len(set(ids)) != len(ids):
+            return f"{lv}s: a row appears twice"
+        groups = {}
+        for w, _ in pool:
+            groups.setdefault(_ru_cell(desc, w, lv), []).append(w)
+        if len(got) != len(groups):
+            return f"{lv}s: {len(got)} rows but {len(groups)} distinct entities among all input rows"
+        for w, _, _ in got:
+            g = groups[_ru_cell(desc, w, lv)]
+            if _ru_cell(desc, w, "score") != max(_ru_cell(desc, x, "score") for x in g):
+                return f"{lv}s: row {_ru_cell(desc, w, 'psm_id')} is not a highest-scoring row of its entity over all input files"
+        spec = q_spec(exact_ints([_ru_cell(desc, w, "score") for w, _, _ in got]), [t for _, t, _ in got], True)
+        for (w, _, rec), q in zip(got, spec):
+            if Fraction(float(q)) != Fraction(rec["q_value"]):
+                return f"{lv}s: q-value of {rec.get('psm_id')} is {rec['q_value']}, C01 formula on the retained rows gives {float(q)}"
+    return None
+
+
+def extra_checks(ctx):
+    """the model's copies of DEFAULT_PARENT_LEVELS and STANDARD_COLUMN_NAME_MAP are mokapot's"""
+    import mokapot.brew_rollup as br
+    fails = []
+    parents, cmap = _ru_model_consts()
+    if [list(x) for x in parents] != [list(x) for x in br.DEFAULT_PARENT_LEVELS.items()]:
+        fails.append({"what": "DEFAULT_PARENT_LEVELS differs from Model/Rollup.v ru_default_parents: %r" % (list(br.DEFAULT_PARENT_LEVELS.items()),),
+                      "failing_input": None})
+    if [list(x) for x in cmap] != [list(x) for x in br.STANDARD_COLUMN_NAME_MAP.items()]:
+        fails.append({"what": "STANDARD_COLUMN_NAME_MAP differs from Model/Rollup.v ru_column_map: %r" % (list(br.STANDARD_COLUMN_NAME_MAP.items()),),
+                      "failing_input": None})
+    return fails, {"rollup_tables_compared": 2}
